@@ -8,7 +8,8 @@ sorted(), whether it starts from the pickle-ordered elements, whether pickle_dum
 set elements by their own pickle, the pickle protocol.  Recognised shapes are a closed
 set (the shipped code and the repaired code); anything else raises TranslateError.
 Hand-modelled and only pinned by shape (tied by the bit-exact correspondence run):
-TypeRegistry.get_hash / get_value / _get_proxy_type / register, MetaValue.__init__,
+TypeRegistry.get_hash / get_value / register (the _get_proxy_type loop is recognised structurally:
+full MRO or bases only -> gen_depth), MetaValue.__init__,
 ProxyValue.__init__, ProxyValue.serialize, RedunBackendDb.record_value (hands get_hash the
 *unsorted* serialization as `data`; Set.get_hash must not use it), hashing.hash_tag_bytes, hashing.Hash.
 """
@@ -24,7 +25,7 @@ from .astutil import TranslateError, body_nodoc, fail, find_assign, find_class, 
 UNIVERSE = {"bool", "int", "float", "str", "bytes", "tuple", "list", "dict", "set", "frozenset", "object",
             "NoneType", "type(None)"}
 PINNED = [("redun/value.py", "TypeRegistry", "get_hash"), ("redun/value.py", "TypeRegistry", "get_value"),
-          ("redun/value.py", "TypeRegistry", "_get_proxy_type"), ("redun/value.py", "TypeRegistry", "register"),
+          ("redun/value.py", "TypeRegistry", "register"),
           ("redun/value.py", "MetaValue", "__init__"), ("redun/value.py", "ProxyValue", "__init__"),
           ("redun/value.py", "ProxyValue", "serialize"),
           ("redun/backends/db/__init__.py", "RedunBackendDb", "record_value"),
@@ -188,6 +189,27 @@ def tr_value(mod):
     return default_tag, set_tag, set_sorted, set_presort, proxies
 
 
+def tr_dispatch(mod):
+    """TypeRegistry._get_proxy_type: which classes are searched for a registered proxy."""
+    fn = find_func(mod, "_get_proxy_type", "TypeRegistry")
+    if [a.arg for a in fn.args.args] != ["self", "raw_type"] or fn.decorator_list:
+        fail("_get_proxy_type: signature changed", fn)
+    b = body_nodoc(fn)
+    if not (len(b) == 2 and isinstance(b[0], ast.For) and not b[0].orelse and src(b[0].target) == "super_raw_type"
+            and [src(x) for x in b[0].body] == [
+                "proxy_type = self._raw2proxy_type.get(super_raw_type)",
+                "if proxy_type:\n    self._raw2proxy_type[raw_type] = proxy_type\n    return proxy_type"]
+            and src(b[1]) == "return None"):
+        fail("_get_proxy_type: expected `for super_raw_type in <classes>: proxy_type = self._raw2proxy_type.get("
+             "super_raw_type); if proxy_type: memoise and return` then `return None`", fn)
+    it = src(b[0].iter)
+    if it == "raw_type.__class__.mro(raw_type)":
+        return "FullMRO"
+    if it == "(raw_type, *raw_type.__bases__)":
+        return "BasesOnly"
+    fail(f"_get_proxy_type: unrecognised search order {it!r}", b[0])
+
+
 def cq_ascii_bytes(s: str) -> str:
     return "(s2b \"" + s.replace('"', '""') + "\"%string)"
 
@@ -198,6 +220,7 @@ def translate(pins: dict | None = None):
     hmod = load("redun/hashing.py")
     proto, canon_sets = tr_utils(umod)
     default_tag, set_tag, set_sorted, set_presort, proxies = tr_value(vmod)
+    depth = tr_dispatch(vmod)
     mods = {"redun/utils.py": umod, "redun/value.py": vmod, "redun/hashing.py": hmod,
             "redun/backends/db/__init__.py": load("redun/backends/db/__init__.py")}
     got = {}
@@ -216,11 +239,13 @@ def translate(pins: dict | None = None):
     v = []
     v.append("(* GENERATED by translate/tr_valuehash.py from /repo/redun/{value,utils}.py -- do not edit *)")
     v.append("From Coq Require Import List NArith Ascii String.")
-    v.append("From RV Require Import Model.ValueHash.")
+    v.append("From RV Require Import Model.ValueHash Model.ProxyDispatch.")
     v.append("Definition gen : vh_cfg := {|")
     v.append(f"  default_tag := {cq_ascii_bytes(default_tag)}; set_tag := {cq_ascii_bytes(set_tag)};")
     v.append(f"  set_sorted := {b(set_sorted)}; set_presort := {b(set_presort)}; canon_sets := {b(canon_sets)}; "
              f"proto := {proto}%N |}}.")
+    v.append("(* the classes TypeRegistry._get_proxy_type searches for a registered proxy *)")
+    v.append(f"Definition gen_depth : search_depth := {depth}.")
     v.append("(* proxies seen in value.py: " + "; ".join(f"{n}:{t}:{'own get_hash' if g else 'default'}"
                                                          for n, t, g, _ in proxies) + " *)")
     if variant == "fixed":
@@ -230,7 +255,13 @@ def translate(pins: dict | None = None):
         v.append("(* The current code is (expected to be) the shipped variant; the _refuted / _partial theorems are about [shipped]. *)")
         v.append("Lemma C16_tie : gen = shipped.")
     v.append("Proof. vm_compute. reflexivity. Qed.")
-    return "\n".join(v) + "\n", {"variant": variant, "pins": got, "cfg": cfg, "proxies": proxies}
+    tie = ("(* GENERATED by translate/tr_valuehash.py -- do not edit *)\n"
+           "From RV Require Import Model.ProxyDispatch Gen.C16Gen.\n"
+           "(* C16_dispatch_history_independent is about the full-MRO search; a bases-only search is refuted\n"
+           "   (C16_dispatch_bases_only_refuted). *)\n"
+           "Lemma C16_tie_dispatch : gen_depth = FullMRO.\nProof. reflexivity. Qed.\n")
+    return "\n".join(v) + "\n", {"variant": variant, "pins": got, "cfg": cfg, "proxies": proxies, "depth": depth,
+                                 "tie": tie}
 
 
 if __name__ == "__main__":
